@@ -55,7 +55,7 @@ func c02Rules(tier string) []Rule {
 			f := tp + "getMatchingTopologies"
 			rs := core.InstrPresent(w, id, "PROV", f, `^store &local<\[1\]\*sched\.TopologyGroup>\[0\] = `+own+`$`, 1, "the owned group itself is appended")
 			rs = append(rs, core.InstrPresent(w, id, "PROV", f, `^store &local<\[1\]\*sched\.TopologyGroup>\[0\] = `+inv+`$`, 1, "the inverse group itself is appended")...)
-			rs = append(rs, core.InstrPresent(w, id, "PROV", f, `^return phi\(phi↺\|append\(phi↺, &local<\[1\]\*sched\.TopologyGroup>\[:\]\)\|phi\(nil\|append\(…, …\)\|phi↺\)\)$`, 1, "both lists are returned")...)
+			rs = append(rs, core.InstrPresent(w, id, "PROV", f, `^return phi\(phi↺\|append\(phi↺, &local<\[1\]\*sched\.TopologyGroup>\[:\]\)\|phi\(nil\|phi↺\|append\(…, …\)\)\)$`, 1, "both lists are returned")...)
 			a := tp + "AddRequirements"
 			rs = append(rs, core.InstrPresent(w, id, "PROV", a, `^call \(\*sched\.Topology\)\.getMatchingTopologies\(\$0, \$1, \$2, \$4, \$5\)$`, 1, "matching is evaluated for the node's requirements and taints")...)
 			rs = append(rs, core.InstrPresent(w, id, "PROV", a, `^call \(scheduling\.Requirements\)\.Get\(\$3, .*\.Key\)$`, 1, "pod domains from the pod's requirements")...)
